@@ -29,8 +29,8 @@ CLAIMED = {
          'Trusted: big-integer model (mir2smt/bigint.py), SMT-LIB semantics as written in the obligations. Outside: compile(), SymEnv::from_concrete_env, verify_* assert builders, extension-type string parsing, shifts/extract/concat.', '4 C18'),
  'C20': ('panic-freedom of the cedar-policy-core kernels encoded for C01/C02/C07/C13/C14: every MIR assert / unwrap / expect / unreachable! / explicit panic on a feasible path is a failed obligation',
          'Narrow slice of C20: only the kernels listed in the evidence; parsers, error rendering, JSON/protobuf/FFI entry points and nesting limits are outside. Panics inside stubbed callees are invisible.', '4 C20'),
- 'C08': ('policy-set edits: add, add_static, add_template, link, unlink, remove_static, remove_template each executed from MIR over abstract maps (SMT arrays over an uninterpreted id sort) from an ARBITRARY state satisfying a 9-conjunct representation invariant: invariant preserved, failed operation changes nothing, successful one changes exactly the named ids (inductive step => histories of any length)',
-         'Trusted: abstract-map model of LinkedHashMap/LinkedHashSet; uninterpreted Policy/Template accessors; preconditions the public API enforces (add takes static policies only, link refuses static templates). Outside: linked policy == substituted static policy (needs the evaluator), merge_policyset, Template::link/check_binding, api.rs wrapper maps.', '4 C08'),
+ 'C08': ('policy-set edits: add, add_static, add_template, link, unlink, remove_static, remove_template each executed from MIR over abstract maps (SMT arrays over an uninterpreted id sort) from an ARBITRARY state satisfying a 9-conjunct representation invariant: invariant preserved, failed operation changes nothing, successful one changes exactly the named ids (inductive step => histories of any length); merge_policyset(self arbitrary, other = one static policy / one template / one template with a link, symbolic) preserves the invariant, loses nothing of self, brings in everything of other, fails atomically; `==` on Template / Policy / TemplateBodyImpl / StaticPolicy compares every component but the source location',
+         'Trusted: abstract-map model of LinkedHashMap/LinkedHashSet; uninterpreted Policy/Template accessors; preconditions the public API enforces (add takes static policies only, link refuses static templates). Outside: linked policy == substituted static policy (needs the evaluator), merges with larger `other` sets, the search loop of get_fresh_id, Template::link/check_binding, api.rs wrapper maps.', '4 C08'),
  'C13': ('PartialResponse algebra: decision() agrees with every completion and is None only when completions disagree; must <= determining <= may; definitely_errored / definitely_satisfied; the policy set reauthorize evaluates',
          'Trusted: bucket-granular completion model; HashMap/iterator adaptors as logged terms with real closure bodies. Outside: residual-building arms of the evaluator, partial entity stores.', '4 C13'),
 }
